@@ -32,7 +32,7 @@ VEC = 1000          # a 2-vector element is (v, v + VEC)
 # Which arithmetic Part 3 of RaggedRead.tla transcribes: the pinned tree (FALSE) or ra.py with the proposed
 # repairs (TRUE).  Only the design-level statements and the fidelity note depend on it; the verdict on the
 # code is always "observed = Get".  Flip to "TRUE" once the repairs are committed to /repo.
-PATCHED = os.environ.get("VERIF_C05_PATCHED", "FALSE").upper()
+PATCHED = os.environ.get("VERIF_C05_PATCHED", "TRUE").upper()   # /repo contains the repairs (fix: commits f6cabcf..d7b8f47)
 
 MC_INVS = ["TypeOK", "Representation", "StepsAgree", "NoNeighbourLeakImpl", "ElementOutsideRaises",
            "ReadEq", "MisshapedOnlyVectorEqualLengths", "DepartAlwaysIsTight"]
